@@ -30,12 +30,15 @@ func init() {
 func runC10(c *an.Ctx) {
 	p := c.P
 	const mod = "ipld/unixfs/mod"
-	fld := func(n string) *types.Var { return p.Field(mod, "DagModifier", n) }
-	fWrBuf, fStart, fCur, fNode, fRead := fld("wrBuf"), fld("writeStart"), fld("curWrOff"), fld("curNode"), fld("read")
-	if !c.Need(fWrBuf != nil && fStart != nil && fCur != nil && fNode != nil && fRead != nil, "DagModifier fields wrBuf,writeStart,curWrOff,curNode,read") {
+	fns := p.PkgFuncs(mod)
+	roles := c10ResolveRoles(c, fns)
+	if !c.Need(roles != nil && roles.wrBuf != nil && roles.writeStart != nil && roles.curWrOff != nil && roles.curNode != nil && roles.read != nil,
+		"DagModifier state by role: the *bytes.Buffer, the uint64 advanced by Buffer.Write counts (current offset), the uint64 advanced by Buffer.Len (write start), the ipld.Node, the DagReader") {
 		return
 	}
-	fns := p.PkgFuncs(mod)
+	c.Need(roles.grow != nil && roles.appender != nil && roles.modify != nil && roles.truncate != nil && roles.fileSize != nil,
+		"unixfs/mod helpers by role: grow (parameter -> io.LimitReader), append (calls trickle.Append), overwrite (reads the write buffer), truncate (recursive Node,uint64 -> Node,error), fileSize (Node -> uint64,error)")
+	fWrBuf, fStart, fCur, fNode, fRead := roles.wrBuf, roles.writeStart, roles.curWrOff, roles.curNode, roles.read
 	loadOf := func(v ssa.Value, f *types.Var) bool {
 		u, ok := v.(*ssa.UnOp)
 		if !ok || u.Op != token.MUL {
@@ -402,7 +405,11 @@ func runC10(c *an.Ctx) {
 			use := ""
 			for _, r := range *l.Referrers() {
 				if call, ok := r.(ssa.CallInstruction); ok {
-					use = an.Callee(call).Name
+					if ci := an.Callee(call); ci.Static != nil && ci.Static.Pkg != nil && fn.Pkg != nil && ci.Static.Pkg == fn.Pkg {
+						use = roles.label(ci.Static)
+					} else {
+						use = ci.Name
+					}
 					if use == "" {
 						use = "call"
 					}
@@ -488,7 +495,7 @@ func runC10(c *an.Ctx) {
 						idiom = c07FollowsOnSuccess(fn, call, repos)
 					}
 				}
-				c.Check(ok || idiom, "O3", "R-DOM", an.FuncName(fn), t.Name()+"<=Sync-ok", call.Pos(),
+				c.Check(ok || idiom, "O3", "R-DOM", an.FuncName(fn), roles.label(t)+"<=Sync-ok", call.Pos(),
 					"the DAG/buffer operation of the flush is entered with the write buffer flushed (successful Sync, empty buffer, or grow-then-Sync-and-reposition)",
 					t.Name()+" is entered from "+fn.Name()+" without a preceding successful Sync() (and the buffer is not known to be empty): it works on a DAG that does not yet contain the buffered bytes while sizes computed from Size() already count them — the file ends up short/misplaced by the buffered bytes")
 			}
@@ -641,7 +648,7 @@ func runC10(c *an.Ctx) {
 	c.Min("O4 content-change sites", nO4, 1)
 
 	// ---------------- O5: offset arithmetic (round 2)
-	c10Arithmetic(c, fns, fWrBuf, fStart, fNode)
+	c10Arithmetic(c, fns, fWrBuf, fStart, fNode, roles)
 
 	// deterministic note about what family members were seen
 	var fam []string
@@ -655,8 +662,9 @@ func runC10(c *an.Ctx) {
 // c10Arithmetic: O5 — sizes handed to expandSparse are proven non-negative differences, Sync flushes at writeStart in
 // the order grow -> overwrite -> append, and the recursive descents (modifyDag, dagTruncate) translate the absolute
 // offset into the child's coordinate system with the running sum of the sizes of the children already passed.
-func c10Arithmetic(c *an.Ctx, fns []*ssa.Function, fWrBuf, fStart, fNode *types.Var) {
+func c10Arithmetic(c *an.Ctx, fns []*ssa.Function, fWrBuf, fStart, fNode *types.Var, roles *c10Roles) {
 	p := c.P
+	_ = p
 	const mod = "ipld/unixfs/mod"
 	loadOf := func(v ssa.Value, f *types.Var) bool {
 		u, ok := v.(*ssa.UnOp)
@@ -684,7 +692,7 @@ func c10Arithmetic(c *an.Ctx, fns []*ssa.Function, fWrBuf, fStart, fNode *types.
 	// ---- (a) expandSparse(a - b) only where a > b
 	nExp := 0
 	for _, fn := range fns {
-		for _, call := range an.Calls(fn, an.M(mod, "DagModifier", "expandSparse")) {
+		for _, call := range c10CallsTo(fn, roles.grow) {
 			nExp++
 			arg := an.XBStripConv(an.Args(call)[0])
 			sub, ok := arg.(*ssa.BinOp)
@@ -701,7 +709,7 @@ func c10Arithmetic(c *an.Ctx, fns []*ssa.Function, fWrBuf, fStart, fNode *types.
 				})
 				okG = len(edges) > 0 && an.GuardedBy(fn, nil, call, edges)
 			}
-			c.Check(okG, "O5", "R-CMP", an.FuncName(fn), "expandSparse(a-b)<=a>b", call.Pos(),
+			c.Check(okG, "O5", "R-CMP", an.FuncName(fn), "grow(a-b)<=a>b", call.Pos(),
 				"the file is grown by a difference that was tested positive", "expandSparse is called with a size that is not a difference a-b guarded by a > b on the same operands: an unsigned underflow or a wrong operand grows the file by a bogus amount (misplaced or huge zero fill)")
 		}
 	}
@@ -711,7 +719,7 @@ func c10Arithmetic(c *an.Ctx, fns []*ssa.Function, fWrBuf, fStart, fNode *types.
 	// The steps are found by role (callers of modifyDag other than itself; calls of appendData fed from wrBuf), wherever
 	// they live: Sync itself or helpers it calls.
 	graph := an.XBLocalGraph(fns)
-	modFn := p.Func(mod, "DagModifier", "modifyDag")
+	modFn := roles.modify
 	// functions reachable from f through package-local static calls
 	reachFrom := func(f *ssa.Function) map[*ssa.Function]bool {
 		seen := map[*ssa.Function]bool{}
@@ -742,10 +750,10 @@ func c10Arithmetic(c *an.Ctx, fns []*ssa.Function, fWrBuf, fStart, fNode *types.
 			m := in.(ssa.CallInstruction)
 			nFlush++
 			a := an.Args(m)
-			c.Check(loadOf(a[0], fNode) && loadOf(a[1], fStart), "O5", "R-FLOW", an.FuncName(fn), "modifyDag(curNode,writeStart)", m.Pos(),
+			c.Check(loadOf(a[0], fNode) && loadOf(a[1], fStart), "O5", "R-FLOW", an.FuncName(fn), "overwrite(curNode,writeStart)", m.Pos(),
 				"the buffer is written into the current DAG at writeStart", "the flush overwrites at an offset other than dm.writeStart (or in a node other than dm.curNode): buffered bytes land at the wrong position")
-			for _, e := range an.Calls(fn, an.M(mod, "DagModifier", "expandSparse")) {
-				c.Check(an.Dominates(e, m) || !an.Reaches(fn, m, e, nil, nil), "O5", "R-DOM", an.FuncName(fn), "expandSparse-before-modifyDag", e.Pos(),
+			for _, e := range c10CallsTo(fn, roles.grow) {
+				c.Check(an.Dominates(e, m) || !an.Reaches(fn, m, e, nil, nil), "O5", "R-DOM", an.FuncName(fn), "grow-before-overwrite", e.Pos(),
 					"the file is grown to writeStart before the overwrite", "the file is grown after overwriting: the overwrite runs on a DAG shorter than writeStart")
 			}
 			okGet := false
@@ -760,9 +768,9 @@ func c10Arithmetic(c *an.Ctx, fns []*ssa.Function, fWrBuf, fStart, fNode *types.
 					}
 				}
 			}
-			c.Check(okGet, "O5", "R-FLOW", an.FuncName(fn), "curNode=Get(modifyDag-result)", m.Pos(), "the DAG is reloaded from the CID modifyDag returned", "dm.curNode is not reloaded from the CID returned by modifyDag")
+			c.Check(okGet, "O5", "R-FLOW", an.FuncName(fn), "curNode=Get(overwrite-result)", m.Pos(), "the DAG is reloaded from the CID modifyDag returned", "dm.curNode is not reloaded from the CID returned by modifyDag")
 		}
-		for _, a := range an.Calls(fn, an.M(mod, "DagModifier", "appendData")) {
+		for _, a := range c10CallsTo(fn, roles.appender) {
 			// only the append of the write buffer (expandSparse appends a zero stream)
 			fromBuf := false
 			for _, r := range an.Roots(an.Args(a)[1], nil) {
@@ -790,7 +798,7 @@ func c10Arithmetic(c *an.Ctx, fns []*ssa.Function, fWrBuf, fStart, fNode *types.
 				}
 				return false
 			}, 3)
-			c.Check(okOrder, "O5", "R-DOM", an.FuncName(fn), "modifyDag-before-appendData", a.Pos(),
+			c.Check(okOrder, "O5", "R-DOM", an.FuncName(fn), "overwrite-before-append", a.Pos(),
 				"bytes that overlap the existing file are written before the rest is appended", "the buffer is appended before (or without) overwriting the overlapping part: bytes are duplicated or misplaced")
 			okLeft := graph.HeldUp(fn, a, func(f *ssa.Function, at ssa.Instruction) bool {
 				var lens []ssa.Value
@@ -811,7 +819,7 @@ func c10Arithmetic(c *an.Ctx, fns []*ssa.Function, fWrBuf, fStart, fNode *types.
 				})
 				return len(left) > 0 && an.GuardedBy(f, nil, at, left)
 			}, 3)
-			c.Check(okLeft, "O5", "R-DOM", an.FuncName(fn), "appendData<=wrBuf.Len()>0", a.Pos(),
+			c.Check(okLeft, "O5", "R-DOM", an.FuncName(fn), "append<=wrBuf.Len()>0", a.Pos(),
 				"append only what is left in the buffer", "appendData is called for the write buffer although it may be empty (not guarded by wrBuf.Len() > 0)")
 		}
 	}
@@ -923,7 +931,12 @@ func c10Arithmetic(c *an.Ctx, fns []*ssa.Function, fWrBuf, fStart, fNode *types.
 				"a child is entered only where the target lies before its end", "the descent into a child is not guarded by target < passed + childsize on the same values: the wrong child is modified, or target - passed underflows")
 			// B is the size of the very child that is entered
 			okB := false
-			if fc, ok := an.IsCallTo(B, an.M(mod, "", "fileSize")); ok && child != nil && fc.Call.Args[0] == child {
+			if fc, ok := B.(*ssa.Extract); ok && child != nil && roles.fileSize != nil {
+				if fcc, ok2 := fc.Tuple.(*ssa.Call); ok2 && an.Callee(fcc).Static == roles.fileSize && fcc.Call.Args[0] == child {
+					okB = true
+				}
+			}
+			if false {
 				okB = true
 			}
 			if l, ok := B.(*ssa.UnOp); ok && l.Op == token.MUL {
@@ -1039,16 +1052,16 @@ func c10Arithmetic(c *an.Ctx, fns []*ssa.Function, fWrBuf, fStart, fNode *types.
 	// ---- (d) leaf truncation cuts at the requested size; Truncate hands its own size down and rejects a negative one
 	// every entry into dagTruncate from outside cuts dm.curNode at a size that derives from a signed parameter which
 	// was tested non-negative (in the calling function or, for a helper, at its call sites)
-	if dtf := p.Func(mod, "DagModifier", "dagTruncate"); dtf != nil {
+	if dtf := roles.truncate; dtf != nil {
 		nTr := 0
 		for _, fn := range fns {
-			for _, call := range an.Calls(fn, an.M(mod, "DagModifier", "dagTruncate")) {
+			for _, call := range c10CallsTo(fn, dtf) {
 				if fn == dtf {
 					continue
 				}
 				nTr++
 				a := an.Args(call)
-				c.Check(loadOf(a[1], fNode), "O5", "R-FLOW", an.FuncName(fn), "dagTruncate(curNode,_)", call.Pos(),
+				c.Check(loadOf(a[1], fNode), "O5", "R-FLOW", an.FuncName(fn), "truncate(curNode,_)", call.Pos(),
 					"the current DAG is the one that is truncated", "a node other than dm.curNode is truncated")
 				okNeg := graph.HeldUpV(fn, call, an.XBStripConv(a[2]), func(f *ssa.Function, at ssa.Instruction, v ssa.Value) bool {
 					par, ok := v.(*ssa.Parameter)
@@ -1070,7 +1083,7 @@ func c10Arithmetic(c *an.Ctx, fns []*ssa.Function, fWrBuf, fStart, fNode *types.
 		}
 		c.Min("O5 entries into dagTruncate", nTr, 1)
 	}
-	if dt := p.Func(mod, "DagModifier", "dagTruncate"); dt != nil {
+	if dt := roles.truncate; dt != nil {
 		size := ssa.Value(dt.Params[len(dt.Params)-1])
 		n := 0
 		an.Instrs(dt, func(in ssa.Instruction) {
@@ -1090,4 +1103,209 @@ func c10Arithmetic(c *an.Ctx, fns []*ssa.Function, fWrBuf, fStart, fNode *types.
 		})
 		c.Min("O5 leaf truncation slices", n, 1)
 	}
+}
+
+// ---------------------------------------------------------------------------
+// Round 7: unexported identifiers of package unixfs/mod are resolved by role.
+
+type c10Roles struct {
+	wrBuf, writeStart, curWrOff, curNode, read *types.Var
+	grow                                       *ssa.Function // expandSparse: its integer parameter flows into io.LimitReader
+	appender                                   *ssa.Function // appendData: calls trickle.Append
+	modify                                     *ssa.Function // modifyDag: drains dm.wrBuf with (*bytes.Buffer).Read
+	truncate                                   *ssa.Function // dagTruncate: recursive, (ipld.Node, uint64 ...) -> (ipld.Node, error)
+	fileSize                                   *ssa.Function // fileSize: func(ipld.Node) (uint64, error)
+	names                                      map[*ssa.Function]string
+}
+
+func (r *c10Roles) label(f *ssa.Function) string {
+	if f == nil {
+		return "call"
+	}
+	if n, ok := r.names[f]; ok {
+		return n
+	}
+	if ast := f.Name(); len(ast) > 0 && ast[0] >= 'A' && ast[0] <= 'Z' {
+		return ast
+	}
+	return "helper"
+}
+
+func c10ResolveRoles(c *an.Ctx, fns []*ssa.Function) *c10Roles {
+	p := c.P
+	const mod = "ipld/unixfs/mod"
+	r := &c10Roles{names: map[*ssa.Function]string{}}
+	dm := p.Named(mod, "DagModifier")
+	if dm == nil {
+		return nil
+	}
+	st, ok := dm.Underlying().(*types.Struct)
+	if !ok {
+		return nil
+	}
+	var u64 []*types.Var
+	for i := 0; i < st.NumFields(); i++ {
+		f := st.Field(i)
+		if f.Exported() {
+			continue
+		}
+		switch {
+		case an.TypeIs(f.Type(), "bytes", "Buffer"):
+			r.wrBuf = f
+		case an.TypeIs(f.Type(), "ipld/unixfs/io", "DagReader"):
+			r.read = f
+		case an.TypeIs(f.Type(), "github.com/ipfs/go-ipld-format", "Node"):
+			r.curNode = f
+		default:
+			if b, ok := f.Type().Underlying().(*types.Basic); ok && b.Kind() == types.Uint64 {
+				u64 = append(u64, f)
+			}
+		}
+	}
+	if r.wrBuf == nil {
+		return r
+	}
+	loadOf := func(v ssa.Value, f *types.Var) bool {
+		u, ok := v.(*ssa.UnOp)
+		if !ok || u.Op != token.MUL {
+			return false
+		}
+		g, _ := an.FieldOf(u.X)
+		return g == f
+	}
+	// the two uint64 positions: the one advanced by the count written into the buffer is the current offset, the one
+	// advanced by the length of the buffer is the start of the buffered write
+	for _, fn := range fns {
+		an.Instrs(fn, func(in ssa.Instruction) {
+			st, ok := in.(*ssa.Store)
+			if !ok {
+				return
+			}
+			f, _ := an.FieldOf(st.Addr)
+			isU := false
+			for _, q := range u64 {
+				if q == f {
+					isU = true
+				}
+			}
+			b, okB := st.Val.(*ssa.BinOp)
+			if !isU || !okB || b.Op != token.ADD {
+				return
+			}
+			x, y := an.XBStripConv(b.X), an.XBStripConv(b.Y)
+			var addend ssa.Value
+			if loadOf(x, f) {
+				addend = y
+			} else if loadOf(y, f) {
+				addend = x
+			} else {
+				return
+			}
+			if call, ok := an.IsCallTo(addend, an.M("bytes", "Buffer", "Write")); ok && loadOf(an.Recv(call), r.wrBuf) {
+				r.curWrOff = f
+			}
+			if call, ok := an.IsCallTo(addend, an.M("bytes", "Buffer", "Len")); ok && loadOf(an.Recv(call), r.wrBuf) {
+				r.writeStart = f
+			}
+		})
+	}
+	if r.curWrOff != nil && r.writeStart == nil || r.curWrOff == nil && r.writeStart != nil {
+		// the other one by elimination when exactly two candidates exist
+		if len(u64) == 2 {
+			for _, q := range u64 {
+				if q != r.curWrOff && q != r.writeStart {
+					if r.curWrOff == nil {
+						r.curWrOff = q
+					} else {
+						r.writeStart = q
+					}
+				}
+			}
+		}
+	}
+	// functions
+	nodeT := func(t types.Type) bool { return an.TypeIs(t, "github.com/ipfs/go-ipld-format", "Node") }
+	g := an.XBLocalGraph(fns)
+	selfReach := func(f *ssa.Function) bool {
+		seen := map[*ssa.Function]bool{}
+		var walk func(x *ssa.Function) bool
+		walk = func(x *ssa.Function) bool {
+			for _, call := range an.AllCalls(x) {
+				t := an.Callee(call).Static
+				if t == f {
+					return true
+				}
+				if t != nil && g.In[t] && !seen[t] {
+					seen[t] = true
+					if walk(t) {
+						return true
+					}
+				}
+			}
+			return false
+		}
+		return walk(f)
+	}
+	for _, fn := range fns {
+		if fn.Parent() != nil {
+			continue
+		}
+		for _, call := range an.Calls(fn, an.M("ipld/unixfs/importer/trickle", "", "Append")) {
+			_ = call
+			r.appender = fn
+		}
+		for _, call := range an.Calls(fn, an.M("io", "", "LimitReader")) {
+			for _, root := range an.Roots(an.XBStripConv(call.Common().Args[1]), nil) {
+				if par, ok := root.(*ssa.Parameter); ok && par.Parent() == fn {
+					r.grow = fn
+				}
+			}
+		}
+		for _, call := range an.Calls(fn, an.M("bytes", "Buffer", "Read")) {
+			if loadOf(an.Recv(call), r.wrBuf) {
+				r.modify = fn
+			}
+		}
+		sig := fn.Signature
+		if sig.Recv() == nil && sig.Params().Len() == 1 && nodeT(sig.Params().At(0).Type()) && sig.Results().Len() == 2 && an.IsErrorType(sig.Results().At(1).Type()) {
+			if b, ok := sig.Results().At(0).Type().Underlying().(*types.Basic); ok && b.Kind() == types.Uint64 {
+				r.fileSize = fn
+			}
+		}
+		if sig.Results().Len() == 2 && nodeT(sig.Results().At(0).Type()) && an.IsErrorType(sig.Results().At(1).Type()) {
+			hasNode, hasU := false, false
+			for i := 0; i < sig.Params().Len(); i++ {
+				if nodeT(sig.Params().At(i).Type()) {
+					hasNode = true
+				}
+				if b, ok := sig.Params().At(i).Type().Underlying().(*types.Basic); ok && b.Kind() == types.Uint64 {
+					hasU = true
+				}
+			}
+			if hasNode && hasU && selfReach(fn) {
+				r.truncate = fn
+			}
+		}
+	}
+	r.names[r.grow] = "grow"
+	r.names[r.appender] = "append"
+	r.names[r.modify] = "overwrite"
+	r.names[r.truncate] = "truncate"
+	r.names[r.fileSize] = "fileSize"
+	delete(r.names, nil)
+	return r
+}
+
+// c10CallsTo lists the calls in fn whose static callee is target.
+func c10CallsTo(fn, target *ssa.Function) []ssa.CallInstruction {
+	var out []ssa.CallInstruction
+	if target == nil {
+		return nil
+	}
+	for _, call := range an.AllCalls(fn) {
+		if an.Callee(call).Static == target {
+			out = append(out, call)
+		}
+	}
+	return out
 }
